@@ -754,7 +754,7 @@ def _cubeplane_ray_intersection(xyz, dxdydz, extent):
         Unit vector representing the direction of travel of the ray.
     extent : tuple of int
         Integer address for the detector edge on the -x, +x, -y,
-        +y, -z and +z edges. Should be representable as an int16.
+        +y, -z and +z edges. Should be representable as an int64.
 
     Returns
     -------
@@ -826,8 +826,8 @@ def _cubeplane_ray_intersection(xyz, dxdydz, extent):
     del max_L
 
     d_pos = dxdydz >= 0.0
-    least = np.ceil(np.where(d_pos, nearest, furthest)).astype(np.int16)
-    great = np.floor(np.where(d_pos, furthest, nearest)).astype(np.int16) + 1
+    least = np.ceil(np.where(d_pos, nearest, furthest)).astype(np.int64)
+    great = np.floor(np.where(d_pos, furthest, nearest)).astype(np.int64) + 1
 
     d_pos = d_pos.astype(np.uint8)
     d_pos[:, 1] += 2
@@ -888,11 +888,11 @@ def _process_cube_intersections(inter, xyz, dxdydz):
     interpoint : ndarray of np.float32
         One row for each ray intersection, values are x,y,z of intersection
         point
-    last_coord : ndarray of np.int16
+    last_coord : ndarray of np.int64
         One row for each ray intersection, values are the x,y,z coordinate of
         the cube that the ray is leaving. (May not be inside extent, you should
         check if you care.)
-    next_coord : ndarray of np.int16
+    next_coord : ndarray of np.int64
         One row for each ray intersection, values are the x,y,z coordinate of
         the cube that the ray is entering. (May not be inside extent, you should
         check if you care.)
@@ -920,10 +920,10 @@ def _process_cube_intersections(inter, xyz, dxdydz):
                                 [0.0, 0.0, -1e-2],  [0.0, 0.0, 1e-2]])
 
     w = np.choose(inter['facedirection'][:, None], next_pixel_bias)
-    next_coord = np.empty(_xyz.shape, dtype=np.int16)
+    next_coord = np.empty(_xyz.shape, dtype=np.int64)
     np.floor(inter_point + w, out=next_coord, casting='unsafe')
 
-    last_coord = np.empty(_xyz.shape, dtype=np.int16)
+    last_coord = np.empty(_xyz.shape, dtype=np.int64)
     np.floor(inter_point - w, out=last_coord, casting='unsafe')
 
     return (inter['indx'], inter['raylength'], draylength, inter_point,
